@@ -224,29 +224,38 @@ PROPS['C26'] = dict(
 )
 
 PROPS['C19'] = dict(
-    units=['k_seq'], level='proof', design_ref='6/C19',
+    units=['k_seq', 'k_proc'], level='proof', design_ref='6/C19',
     technique='CBMC harness contract on Session::enforce with Session::sequence_check, compid_check, do_state_change, States::is_established/is_live and SessionID::same_*_comp_id all '
               'translated from their real bodies (clang AST of runtime/session.cpp); the inbound message header, send/generate_resend_request and the session configuration are assumed models',
     text='The library-side gate (proved-modular, for every session state, expected number, received number, header content and configuration): enforce lets a message through to the application '
          '(returns false without throwing) exactly when the session is established, the CompIDs match the session identity when enforcement is on, and the number is the expected one or lower '
          'with PossDupFlag=Y and OrigSendingTime not after SendingTime; a higher number in normal operation is withheld, a ResendRequest starting at the expected number is sent (exactly one) and '
          'the state becomes resend_request_sent; a lower number without PossDup raises MsgSequenceTooLow; the gate never moves the expected number and raises only protocol exceptions. '
-         'ASSUMED: every handle_application is `enforce(seqnum, msg) || msg->process(router)` (as all in-tree ones are). NOT decided: Session::process (how MsgSeqNum is extracted from the raw '
-         'text -- first "34=" occurrence -- the dispatch, the epilogue that advances the expected number, reject-on-decode-failure), handle_sequence_reset, the history lemma.',
-    note='only the gate function is under contract; Session::process and the admin handlers are not; message header accessors and send() are ASSUMED models; delivery itself happens in user code',
+         'ASSUMED: every handle_application is `enforce(seqnum, msg) || msg->process(router)` (as all in-tree ones are). '
+         'Around the gate (K-proc: Session::process from the clang AST, handlers other than handle_sequence_reset as models applying the gate\'s contract; proved-modular for every state, number, '
+         'message type, construction outcome and handler outcome): the number handed to the handlers is the MsgSeqNum field of the message, also when an earlier header value contains the text "34=" '
+         '(failed before fix 2fe21e9); the message type selects exactly one handler; a message that cannot be constructed reaches no handler, an ordinary failure is answered with exactly one Reject '
+         'and consumes the number, one that forces logout stops the session; a lower number without PossDupFlag is not delivered and shuts the session down, with a Logout during logon. '
+         'KNOWN FINDING: in normal operation that shutdown sends no Logout (process() sends it only in state logon_received). '
+         'NOT decided: handle_logon / handle_admin / activation_check bodies, Message::factory (C04), the history lemma.',
+    note='the gate and process() are under contract; the admin handlers other than handle_sequence_reset are models; message header accessors, string search and send() are ASSUMED models; delivery itself happens in user code',
     trusted_base=COMMON_TRUST,
     explanation='The inbound message is a ghost record of the header facts the gate reads; all session state it touches is symbolic, so the postconditions hold for every reachable and unreachable state alike.',
 )
 
 PROPS['C20'] = dict(
-    units=['k_seq'], level='proof', design_ref='6/C20',
+    units=['k_seq', 'k_proc'], level='proof', design_ref='6/C20',
     technique='same unit as C19 (Session::enforce / sequence_check from the clang AST): obligations about a number above the expected one',
     text='A number above the expected one in normal operation is withheld and answered with a ResendRequest, not treated as fatal (proved). REFUTED on the pinned tree and listed as known findings, '
          'each reproduced through the real Session::process with the utests mock connection: a further higher-numbered message while the resend is pending (conformant: the counterparty keeps '
          'sending) raises InvalidMsgSequence, which forces a logoff; a Logon whose number is above the expected one does the same (unless the ignore_logon_sequence_check flag is set). '
-         'NOT decided: the rest of gap recovery -- handle_resend_request / retrans_callback on the sending side (C18), handle_sequence_reset (GapFill adoption), the expected number being advanced '
-         'by the epilogue of Session::process after a withheld message, and the whole exchange as a history.',
-    note='only the sequence_check decision is covered; the conformant-counterparty history lemma is not built',
+         'The expected inbound number (K-proc: Session::process and handle_sequence_reset from the clang AST, proved-modular): an in-sequence message advances it by exactly one; a SequenceReset / '
+         'GapFill with NewSeqNo at or above it makes it NewSeqNo and returns a pending recovery to normal operation, one below it never lowers it, and a SequenceReset is never delivered. '
+         'KNOWN FINDINGS (refuted, each reproduced through the real Session::process): the epilogue of process() also advances the expected number for a WITHHELD message and for an ACCEPTED '
+         'DUPLICATE, so after a gap that the counterparty answers by replaying two or more application messages the next new message is "too low" and the session is terminated '
+         '(Logon 1, order 2, order 5, replay 3 4 5 with PossDup, order 6), and one conformant PossDup duplicate in normal operation does the same. Recovery by GapFill alone works. '
+         'NOT decided: the sending side (C18), the whole exchange as a history.',
+    note='per-call contracts of the gate, process() and handle_sequence_reset; the conformant-counterparty history lemma is not built',
     trusted_base=COMMON_TRUST,
     explanation='See C19.',
 )
@@ -314,7 +323,7 @@ PROPS['C18'] = dict(
 )
 
 PROPS['C16'] = dict(
-    units=['k_send'], level='proof', design_ref='12/C16',
+    units=['k_send', 'k_proc'], level='proof', design_ref='12/C16',
     technique='CBMC harness contracts on Session::send_process, Session::update_persist_seqnums and Session::recover_seqnums extracted from the clang AST of runtime/session.cpp; the message header '
               'is a ghost record of the six fields send_process touches, Message::encode / Connection::send / Persister::put and the batch buffer are assumed models that log what they were given',
     text='Per call of send_process (proved-modular, for every header state, custom number, no_increment / end_of_batch flag, admin or application message, persister present or not, write success '
@@ -323,8 +332,8 @@ PROPS['C16'] = dict(
          'SequenceReset, and is untouched otherwise (also under always_seqnum_assign -- the obligation that failed before fix f3341f0); the expected inbound number is untouched; the control record '
          'is written exactly once per new message and equals the session numbers after the send, for counted and for uncounted sends (the latter failed before fix 5ef9bf2); a failed write consumes '
          'no number. update_persist_seqnums writes exactly the session numbers; recover_seqnums continues from the control record. "Consecutive, no two new messages share a number" follows by '
-         'induction over calls from the per-call contract. NOT decided: Session::start / handle_logon number selection, the process() epilogue (++expected, update_persist_seqnums after every inbound '
-         'message), concurrent senders (C25), the pipelined writer thread.',
+         'induction over calls from the per-call contract. After every inbound message that process() handles without an exception the control record is written once and equals the session '
+         'numbers, and the outbound number is untouched (K-proc). NOT decided: Session::start / handle_logon number selection, concurrent senders (C25), the pipelined writer thread.',
     note='header, encode, connection, persister and batch-buffer models are ASSUMED; sequential single call',
     trusted_base=COMMON_TRUST,
     explanation='The whole-history statement is an induction over send_process calls whose inductive step is the per-call contract; histories with restarts additionally use recover_seqnums\' contract.',
@@ -510,7 +519,7 @@ def _replay_k_seq(oid, inputs, trace, wd):
     exe = _rp.build_native(os.path.join(_rp.VERIF, 'replay', 'k_seq.cpp'), os.path.join(wd, 'replay_k_seq'), sanitize=False, timeout=900,
                            extra=['/repo/utests/mockConnection.cpp', '-I/repo/utests', '-L/repo/utests/.libs', '-lutest', '-L/repo/runtime/.libs', '-lfix8',
                                   '-Wl,-rpath,/repo/utests/.libs', '-Wl,-rpath,/repo/runtime/.libs'])
-    which = 'send_custom' if 'custom_number_is_stored' in oid else 'send' if re.search(r'C1[67]\.|possdup_and_original', oid) else 'second_gap' if 'resend_pending' in oid else 'logon_gap' if 'logon_with_a_higher' in oid else 'tick' if 'C22' in oid else 'resend' if 'C18' in oid else 'gate'
+    which = 'recovery' if 'does_not_advance' in oid else 'too_low' if 'too_low' in oid else 'seqnum_text' if 'C19.seqnum' in oid else 'send_custom' if 'custom_number_is_stored' in oid else 'send' if re.search(r'C1[67]\.|possdup_and_original', oid) else 'second_gap' if 'resend_pending' in oid else 'logon_gap' if 'logon_with_a_higher' in oid else 'tick' if 'C22' in oid else 'resend' if 'C18' in oid else 'gate'
     os.makedirs(os.path.join(wd, 'seqscratch'), exist_ok=True)
     import subprocess
     p = subprocess.run([exe, 'search', which], cwd=os.path.join(wd, 'seqscratch'), stdout=subprocess.PIPE, stderr=subprocess.STDOUT, text=True, timeout=300)
@@ -583,6 +592,7 @@ replayers['k_seq'] = _replay_k_seq
 replayers['k_hb'] = _replay_k_seq
 replayers['k_rtx'] = _replay_k_seq
 replayers['k_send'] = _replay_k_seq
+replayers['k_proc'] = _replay_k_seq
 replayers['k_mper'] = _replay_k_mper
 replayers['k_enc'] = _replay_k_enc
 replayers['k_sched'] = _replay_k_sched
